@@ -73,7 +73,19 @@ class KsSession:
 
     def fresh(self):
         """empty dataset on both sides, new history"""
-        r = self.cli.cmd("FLUSHALL")
+        try:
+            r = self.cli.cmd("FLUSHALL")
+        except (Closed, TimeoutError, ProtocolError, OSError) as e:
+            # the server is gone or does not answer any more (the last command of the previous history was recorded
+            # as 'closed:TimeoutError' / 'server-died' there): a new server for the next history
+            self.hangs = getattr(self, "hangs", 0) + 1
+            self.crash_log = self.srv.log_tail(1500)
+            self.cli.close()
+            self.srv.stop()
+            self.srv = Server(self.srv.tag)
+            self.cli = self.srv.client()
+            self.restarts = getattr(self, "restarts", 0) + 1
+            r = self.cli.cmd("FLUSHALL")
         if r != ("s", b"OK"):
             raise InternalError("FLUSHALL failed: %r" % (r,))
         self.reset_model()
